@@ -66,6 +66,9 @@ C04_Link == Links({"S"}, {"S"}, {"S"}, {c_a}, {<<>>}, Bnd, Bnd)
 C05_Inv  == Invs(P3, {"A", "B"}, {"M", None}, {c_ab}, {1}, {-1, 6}, {"none"}, {0, 1})
 C05_Link == Links(P3, P3, {"A", "B"}, {c_top, c_ab}, {<<>>, <<Acc({1, 2}), Acc({0, 1})>>}, {-1}, {-1})
 \* thorough: four principals, longer chains, more commands / policies / windows
-C05_Inv4  == Invs({"A", "C"}, {"A", "B"}, {"M", None}, {c_ab}, {1}, {-1, 6}, {"none", "id"}, {0, 1})
-C05_Link4 == Links(P4, P4, {"A", "B"}, {c_top, c_a, c_ab}, {<<>>, <<Acc({1})>>}, {-1, 0}, {-1, 6})
+C05_Inv4  == Invs({"A", "C"}, {"A", "B"}, {"M", None}, {c_ab}, {1}, {-1}, {"none"}, {0, 1, 2, 3})
+C05_Link4 == Links(P4, P4, {"A", "B"}, {c_top, c_ab}, {<<>>, <<Acc({1, 2}), Acc({0, 1})>>}, {-1}, {-1})
+\* thorough, second instance: three principals, all windows / hooks / irrelevant fields, three instants
+C05_Inv3r  == Invs(P3, {"A", "B"}, {"M", None}, {c_ab, c_aab}, {1}, {-1, 6}, {"none", "id"}, {0, 3})
+C05_Link3r == Links(P3, P3, {"A", "B"}, {c_top, c_a, c_ab}, {<<>>, <<Acc({1})>>}, {-1, 0}, {-1, 6})
 =============================================================================
